@@ -12,10 +12,13 @@ pub fn stub_now() -> Instant { unsafe { core::mem::zeroed() } }
 // ---- contract of Duration::mul_f32, proven on the real std code by the c14_lemma_* harnesses ----
 // all comparisons are done on u64 nanoseconds computed by ONE constant multiplication (secs*1e9+nanos);
 // no u128, no division or modulo of symbolic values (those stall the bit-blaster).
-static mut LOG_D: [u64; 8] = [0; 8];
+static mut LOG_D: [Duration; 8] = [Duration::ZERO; 8];
 static mut LOG_F: [u32; 8] = [0; 8];
-static mut LOG_R: [u64; 8] = [0; 8];
+static mut LOG_R: [Duration; 8] = [Duration::ZERO; 8];
 static mut NLOG: usize = 0;
+static mut HALF_D: Duration = Duration::ZERO; // argument / result of the FIRST call with factor 0.5 (the player's clock)
+static mut HALF_R: Duration = Duration::ZERO;
+static mut HALF_CALLS: usize = 0;
 pub const SLACK_SHIFT: u32 = super::gen::C14_SLACK_SHIFT;
 pub const BOUND_S: u64 = super::gen::C14_BOUND_S;
 
@@ -23,35 +26,39 @@ pub fn ns_of(d: Duration) -> u64 { d.as_secs() * 1_000_000_000 + d.subsec_nanos(
 /// the stated meaning of "at most half": 2r <= d + d*2^-SLACK_SHIFT + 2ns (f32 seconds have a 24-bit mantissa)
 pub fn at_most_half(r_ns: u64, d_ns: u64) -> bool { 2 * r_ns <= d_ns + (d_ns >> SLACK_SHIFT) + 2 }
 
-/// (A) factor 0.5, duration <= BOUND_S seconds: at_most_half(result, d)                      [c14_lemma_half]
-/// (B) same duration, factors 0.75 and 3.0: result(0.75) <= result(3.0)                      [c14_lemma_monotone]
-/// (C) no panic for durations <= 2*BOUND_S+1 seconds and the four factors the engine uses    [c14_lemma_*]
+/// Contract of Duration::mul_f32 used while executing TimeStrategy::new:
+/// (A) factor 0.5, duration <= BOUND_S s: at_most_half(result, d)            - proven on the real code by c14_lemma_half;
+///     here the call is only RECORDED (argument and result), the harness relates the engine's limits to it
+/// (B) same duration, factors 0.75 and 3.0: result(0.75) <= result(3.0)      - proven by c14_lemma_monotone, assumed here
+/// (C) no panic for durations <= 2*BOUND_S+1 s and the four factors used     - proven by the lemmas, asserted here as precondition
 /// otherwise the result is arbitrary.
 pub fn stub_mul_f32(d: Duration, f: f32) -> Duration {
-    assert!(f == 0.5 || f == 0.033 || f == 0.75 || f == 3.0); // the contract covers these factors only
+    assert!(f == 0.5 || f == 0.033 || f == 0.75 || f == 3.0);
     assert!(d.as_secs() <= 2 * BOUND_S + 1);
-    let d_ns = ns_of(d);
     let rs: u64 = kani::any();
     let rn: u32 = kani::any();
     kani::assume(rs <= 8 * BOUND_S + 8 && rn < 1_000_000_000);
-    let r = rs * 1_000_000_000 + rn as u64;
-    if f == 0.5 {
-        assert!(d.as_secs() <= BOUND_S);
-        kani::assume(at_most_half(r, d_ns));
-    }
+    let r = Duration::new(rs, rn);
+    // (D) factors below one do not lengthen, factor 3.0 at most quadruples                    [c14_lemma_size]
+    if f == 3.0 { kani::assume(r <= d + d + d + d); } else { kani::assume(r <= d); }
     unsafe {
+        if f == 0.5 {
+            assert!(d.as_secs() <= BOUND_S);
+            if HALF_CALLS == 0 { HALF_D = d; HALF_R = r; }
+            HALF_CALLS += 1;
+        }
         let mut i = 0;
         while i < NLOG {
-            if LOG_D[i] == d_ns {
+            if LOG_D[i] == d {
                 if LOG_F[i] == 0.75f32.to_bits() && f == 3.0 { kani::assume(LOG_R[i] <= r); }
                 if LOG_F[i] == 3.0f32.to_bits() && f == 0.75 { kani::assume(r <= LOG_R[i]); }
             }
             i += 1;
         }
         assert!(NLOG < 8);
-        LOG_D[NLOG] = d_ns; LOG_F[NLOG] = f.to_bits(); LOG_R[NLOG] = r; NLOG += 1;
+        LOG_D[NLOG] = d; LOG_F[NLOG] = f.to_bits(); LOG_R[NLOG] = r; NLOG += 1;
     }
-    Duration::new(rs, rn)
+    r
 }
 
 fn any_duration(max_s: u64) -> Duration {
@@ -68,6 +75,18 @@ pub fn c14_lemma_half() {
     #[cfg(test)] println!("REPLAY-CASE {{\"secs\":{},\"nanos\":{}}}", d.as_secs(), d.subsec_nanos());
     let r = d.mul_f32(0.5);
     assert!(at_most_half(ns_of(r), ns_of(d)));
+    kani::cover!(d.as_secs() > 1000);
+}
+
+/// Lemma D on the real mul_f32: size bounds that keep every intermediate inside the contract's domain
+#[kani::proof]
+pub fn c14_lemma_size() {
+    let d = any_duration(2 * BOUND_S + 1);
+    #[cfg(test)] println!("REPLAY-CASE {{\"secs\":{},\"nanos\":{}}}", d.as_secs(), d.subsec_nanos());
+    assert!(d.mul_f32(0.033) <= d);
+    assert!(d.mul_f32(0.5) <= d);
+    assert!(d.mul_f32(0.75) <= d);
+    assert!(d.mul_f32(3.0) <= d + d + d + d);
     kani::cover!(d.as_secs() > 1000);
 }
 
@@ -104,7 +123,15 @@ fn clocks_case(rem: Duration, inc: Duration, mtg: Option<u32>, overhead: usize, 
     let (soft, hard) = ta::stops(&ts);
     assert!(soft <= hard);
     // oracle: at most half of the remaining time after overhead (overhead <= remaining/2 by precondition)
-    let avail = rem - Duration::new(0, overhead as u32 * 1_000_000);
+    let avail = rem - Duration::from_millis(overhead as u64);
+    #[cfg(not(test))]
+    unsafe {
+        assert!(HALF_CALLS >= 1);
+        assert!(HALF_D == avail);      // the first x0.5 is taken of exactly "remaining after overhead"
+        assert!(hard <= HALF_R);       // and Lemma A bounds that product by half (+ f32 slack) of its argument
+    }
+    // native replay runs the real mul_f32: the end-to-end statement itself
+    #[cfg(test)]
     assert!(at_most_half(ns_of(hard), ns_of(avail)));
     std::mem::forget(ts);
     std::mem::forget(ctl);
